@@ -38,12 +38,19 @@ fn modulus(rng: &mut StdRng, bits: u32) -> Uint {
 
 fn coefs(rng: &mut StdRng, n: &Uint, len: usize, pat: &str) -> Vec<Uint> {
     let nm1 = *n - Uint::ONE;
+    // the residue whose Montgomery representative is the integer 1 (any residue is a valid input)
+    let mont1 = {
+        let mut m = MInt::default();
+        m.0[0] = 1;
+        ZmodN::new(*n).to_int(m)
+    };
     (0..len)
         .map(|i| match pat {
             "zero" => Uint::ZERO,
             "one" => Uint::ONE,
             "nm1" => nm1,
             "rand" => rand_below(rng, n),
+            "mont1" => mont1,
             "mixed" => match (i + len) % 5 {
                 0 => Uint::ZERO,
                 1 => Uint::ONE,
